@@ -85,23 +85,15 @@ f21(17, 'fixed', 'label errors in an extended file name the extending file', tmp
 # the limit witness: many registers
 regs = 'package main\n\nfunc main() {\n' + ''.join('\tvar s%d []int\n' % i for i in range(140)) + '\tprintln(' + ', '.join('s%d' % i for i in range(140)) + ')\n}\n'
 c21[14]['witness']['data']['inputs'][0] = prog(regs)
-inside_doc = ('by design (gc convention) the parser gives operator-like nodes the line:column of a token INSIDE the node (the operator of a binary expression, the dot of a selector, the opening parenthesis of a call/conversion, the bracket of an index/slice, the brace of a composite literal, the inner expression of a parenthesized expression, the word operators contains/and/or/not) while Start/End span the whole node; every checker error positioned on such a node therefore has Line/Column that are not those of Start. Not a small repair (every node constructor and the position tests would change). Class: ')
+inside_doc = ('by design (gc convention) the parser gives operator-like nodes the line:column of a token INSIDE the node (the operator of a binary expression, the dot of a selector, the opening parenthesis of a call/conversion, the bracket of an index/slice, the brace of a composite literal, the inner expression of a parenthesized expression, the word operators contains/and/or/not/default) while Start/End span the whole node; every checker error positioned on such a node therefore has Line/Column that are not those of Start. Not a small repair (every node constructor and the position tests would change). Class: ')
 inside = [
- ('check|column:inside:operator', tmpl('{% a == 3 %}')),
- ('check|line:inside:operator', tmpl('{% `e\nf` + a %}')),
- ('check|column:inside:paren', tmpl('{{ itoa("a") }}')),
- ('check|line:inside:paren', tmpl('{%% func(s string) {\n}(1.5) %%}')),
- ('check|column:inside:dot', tmpl('{{ a . b }}')),
- ('check|column:inside:brace', tmpl('{%%\nT{}\n%%}')),
- ('check|column:inside:bracket', tmpl('{{ a [1] }}')),
- ('check|column:inside:word-operator', tmpl('{% s contains 1.5 %}')),
- ('check|column:inside:name', tmpl('{% (a) %}')),
- ('check|column:inside:number', tmpl('{%%\n(97)\n%%}')),
- ('check|column:inside:quote', tmpl('{%%\n("a")\n%%}')),
- ('syntax|column:inside:dot', tmpl('{% if sortBy := sortBy.(html) default 1 %}{% end %}')),
+ ('check|inside:operator', tmpl('{% a == 3 %}')),
+ ('check|inside:operand', tmpl('{%%\n(97)\n%%}')),
+ ('syntax|inside:operator', tmpl('{% if sortBy := sortBy.(html) default 1 %}{% end %}')),
+ ('cycle|inside:operator', tmpl('<div>\n  {{ render "partial.html" }}\n</div>\n', extra=[('partial.html', '{%  const \ts html =render "partial.html" default "" %}')])),
 ]
 n = 18
 for key, w in inside:
-    f21(n, 'open', inside_doc + key, w, scope=key); n += 1
+    f21(n, 'open', '[' + key + '] ' + inside_doc.replace(' Class: ', ''), w, scope=key); n += 1
 json.dump(c21, open('/verif/harness/props/c21/findings.json', 'w'), indent=1, ensure_ascii=False)
 print(len(c04), len(c21))
